@@ -8,16 +8,18 @@
 # usage: par_validate.sh seeded [ids...]     owning check per change      -> seeded/results.par.tsv
 #        par_validate.sh cross PROP ids...   check PROP per change         -> seeded/results.parcross.tsv
 #        par_validate.sh benign [ids...]     all 12 checks per change     -> benign/results.par.tsv
+#        par_validate.sh bown [ids...]       benign change x the check of the property it was written against (must exit 0)
+#        par_validate.sh bcross PROP ids...  benign change x check PROP (must exit 0 unless listed in expected_alarms.tsv)
 # env: PV_WORKERS (default 6), PV_ROOT (default /tmp/pv)
 set -u
 HERE="$(cd "$(dirname "${BASH_SOURCE[0]}")/.." && pwd)"
 MODE="${1:?mode}"; shift
 CROSS=""
-if [ "$MODE" = cross ]; then CROSS="$1"; shift; fi
+if [ "$MODE" = cross ] || [ "$MODE" = bcross ]; then CROSS="$1"; shift; fi
 W="${PV_WORKERS:-6}"; ROOT="${PV_ROOT:-/tmp/pv}"
 case "$MODE" in
   seeded|cross) SRC=seeded ;;
-  benign) SRC=benign ;;
+  benign|bown|bcross) SRC=benign ;;
   *) echo "unknown mode" >&2; exit 2 ;;
 esac
 ids=("$@")
@@ -60,14 +62,14 @@ worker() { # k
       local prop="${CROSS:-${id%-*}}" out="$ROOT/$k/out.txt"
       ( cd "$wv" && ./check "$prop" quick ) > "$out" 2>&1; rc=$?
       viol=$(grep -m1 "invariant=" "$out" | sed 's/^ *//')
-      if [ -n "$CROSS" ]; then cp "$out" "$d/detect.cross-$CROSS.txt"; else cp "$out" "$d/detect.quick.txt"; fi
+      if [ "$SRC" = seeded ]; then if [ -n "$CROSS" ]; then cp "$out" "$d/detect.cross-$CROSS.txt"; else cp "$out" "$d/detect.quick.txt"; fi; fi
       [ $rc -eq 2 ] && viol="HARNESS-ERROR $(tail -3 "$out" | tr '\n' ' ' | cut -c1-300)"
       echo -e "$id\t$prop\trc=$rc\t$viol"
     fi
     git -C "$wr" checkout -q -- .
   done
 }
-case "$MODE" in seeded) OUT="$HERE/seeded/results.par.tsv" ;; cross) OUT="$HERE/seeded/results.parcross.tsv" ;; benign) OUT="$HERE/benign/results.par.tsv" ;; esac
+case "$MODE" in seeded) OUT="$HERE/seeded/results.par.tsv" ;; cross) OUT="$HERE/seeded/results.parcross.tsv" ;; benign) OUT="$HERE/benign/results.par.tsv" ;; bown) OUT="$HERE/benign/results.parown.tsv" ;; bcross) OUT="$HERE/benign/results.parcross-$CROSS.tsv" ;; esac
 : > "$OUT.new"
 for k in $(seq 1 "$W"); do worker "$k" >> "$OUT.new" & done
 wait
